@@ -62,7 +62,7 @@ def rule_eof(chk, prog, tier):
             def runner(it, first=first):
                 it.MAX_STEPS = 20000
                 s = Obj('scanner', 'heap')
-                s.f[('chr',)] = first; s.f[('usebuf',)] = 0; s.f[('sawspace',)] = 0
+                s.f[('chr',)] = first; s.f[('usebuf',)] = 0; s.f[('sawspace',)] = 0; s.f[('haspeek',)] = 0
                 s.f[('loc', 'file')] = None; s.f[('loc', 'line')] = 1; s.f[('loc', 'col')] = 1
                 def nextchar(it2, args, e):
                     it2.assign(s, ('chr',), -1)
@@ -81,7 +81,7 @@ def rule_eof(chk, prog, tier):
     # the scanner's EOF arm is sticky
     sk = prog.require_func('scankind', 'scan.c')
     def runner2(it):
-        s = Obj('scanner', 'heap'); s.f[('chr',)] = -1; s.f[('usebuf',)] = 0; s.f[('sawspace',)] = 0
+        s = Obj('scanner', 'heap'); s.f[('chr',)] = -1; s.f[('usebuf',)] = 0; s.f[('sawspace',)] = 0; s.f[('haspeek',)] = 0
         s.f[('loc', 'file')] = None; s.f[('loc', 'line')] = 1; s.f[('loc', 'col')] = 1
         it.models['nextchar'] = lambda it2, a, e: it2.event('adv')
         return it.call(sk, [Ptr(s, ()), Ptr(Obj('loc', 'heap'), ())]), len(it.events)
@@ -912,4 +912,5 @@ def run(chk, tier):
     chk.guard('C19.t', lambda: rule_token_spellings(chk, prog, tier))
     from props import c14, c04
     chk.guard('C14.a', lambda: c14.rule_escapes(chk, prog, tier))       # the scanner invariant decodechar's assertions rely on
+    chk.guard('C14.c', lambda: c14.rule_utf8dec(chk, prog, tier))       # ... and the encoders' assert(0): the decoder hands on scalar values only
     chk.guard('C04.c', lambda: c04.rule_traps(chk, prog, tier))         # no trapping host arithmetic in the folder
